@@ -16,7 +16,9 @@ RULE = ("API level (fresh Program per case, no-progress detector on the size loo
         "(3) programs of 1-8 lines assembled from token pools (real and junk mnemonics incl. every pseudo-op, "
         "labels incl. register names, operand garbage, expressions such as L0/0, L0-L1, 5/0, 70000); (4) the C03 "
         "PC-relative sweep (every distance 0..140 both directions, nested statements); (5) INCLUDE graphs in a temp "
-        "directory: missing file, self-include, 2-/3-cycles, diamonds, nesting. CLI level (real assembler.py "
+        "directory: missing file, self-include, 2-/3-cycles, diamonds, nesting; (6) 19 line templates x 6 characters "
+        "outside printable ASCII (Latin-1, U+0100, U+20AC, beyond the BMP, DEL, a control) in strings, character "
+        "literals, labels, comments and operands. CLI level (real assembler.py "
         "processes with --to_bin/--to_cas/--to_dsk): no traceback; on a diagnostic exit status != 0 and no output "
         "file created. Oracle: outcome is OK or a Parse/Translation diagnostic with a message and a printable "
         "statement; never an internal exception, never a hang. Non-trivial = outcome is not OK, or the case is of "
@@ -28,7 +30,8 @@ ASSUMPTIONS = [
 HEALTH = {"outcome:DIAG": 0.06, "outcome:OK": 0.06, "class:include": 120, "class:cli": 60}
 FUZZ = {"target": "fuzz/fuzz_asm.py", "seconds": {"quick": 0, "thorough": 180}}
 EXHAUSTIVE = {"quick": ["label,PCR sweep: 7 mnemonics x plain/indirect x k x both directions x distance 0..140",
-                        "INCLUDE graph catalogue (missing, self, 2-cycle, 3-cycle, diamond, nested) at API and CLI level"],
+                        "INCLUDE graph catalogue (missing, self, 2-cycle, 3-cycle, diamond, nested) at API and CLI level",
+                        "19 line templates x 6 non-ASCII / control characters, alone and in context, API and CLI level"],
               "thorough": ["as quick"]}
 
 # ---------------------------------------------------------------- token pools
@@ -39,7 +42,7 @@ OPERANDS = ["", "1", "$10", "#1", "#$FFFF", "L0", "L1", "L0+1", "L0-1", "L0-L1",
             "2-L0", "70000", "-40000", "$10000", "%101", "'A", "'", "\"abc\"", "\"abc", "/a b/", "//", "\"", "1,2,3", "1,,2",
             ",", "L0,X", "[L0,X]", "L0,PCR", "[L0,PCR]", "[L0]", "[L0+1]", "L0+1,X", "NOSUCH", "NOSUCH,X", "<L0", ">L0",
             "#L0", "#L0-L1", "#NOSUCH", "A,B", "X,Y", "A,X", "D,PC", "256", "#256", "1,X+", "[,X+]", "E0", "E0+1", "E0/0",
-            "nosuch.asm", "L0,L1", "L0,L0", "X,Y,Z", "$", "#", "<", ">", "[", "]", "[]", "[,]", "+", "-", "*", "/", "1+",
+            "nosuch.asm", "\"a\u0100b\"", "/\u00e9/", "'\u20ac", "L\u0100", "#'\u0100", "L0,L1", "L0,L0", "X,Y,Z", "$", "#", "<", ">", "[", "]", "[]", "[,]", "+", "-", "*", "/", "1+",
             "+1", "1+2+3", "1++2", "--1", "-", "$-1", "#-", "65535+1", "32767*2", "1/2", "0/0", "L0+70000"]
 
 _NUMS = [0, 1, 15, 16, 127, 128, 255, 256, 300, 4095, 4096, 32767, 32768, 65535, 65536, 70000, 99999, -1, -16, -17, -128,
@@ -77,7 +80,9 @@ def _mk_line(lab, mn, op, cmt, ws):
 
 
 _line = st.builds(_mk_line, st.sampled_from(LABELS), st.sampled_from(MNEMONICS), _operand, _comment, st.integers(0, 11))
-_raw = st.text(alphabet="ABXL01 \t$#%<>[],+-*/'\";@.:", max_size=24).map(lambda s: s + "\n")
+# characters outside ASCII: Latin-1, beyond one byte, beyond the BMP, and two controls ("all texts")
+_ODD_CHARS = ["\u00e9", "\u0100", "\u20ac", "\U0001F600", "\x7f", "\x01"]
+_raw = st.text(alphabet=list("ABXL01 \t$#%<>[],+-*/'\";@.:") + _ODD_CHARS, max_size=24).map(lambda s: s + "\n")
 # mostly one generated line in a valid context: a second bad line would only be shadowed by the first diagnostic
 _token_program = st.one_of(st.lists(_line, min_size=1, max_size=1), st.lists(_line, min_size=1, max_size=1),
                            st.lists(st.one_of(_line, _line, _line, _raw), min_size=1, max_size=8))
@@ -141,7 +146,7 @@ def _mutate_lines(prog, which, op, pos, ch, other, twice, op2, pos2):
 
 
 _mutation = st.builds(_mutate_lines, proggen.small_program, st.integers(0, 40), st.integers(0, 10), st.integers(0, 60),
-                      st.sampled_from(list(",;\"'[]#$+-*/<>@.:xX1 ")), st.integers(0, 40), st.booleans(),
+                      st.sampled_from(list(",;\"'[]#$+-*/<>@.:xX1 ") + _ODD_CHARS), st.integers(0, 40), st.booleans(),
                       st.integers(0, 10), st.integers(0, 60))
 _valid = st.builds(lambda p: dict(kind="lines", cls="valid", lines=proggen.render(p)), proggen.program)
 
@@ -197,7 +202,25 @@ _cli = st.one_of(
     st.builds(lambda c, sw: dict(c, kind="cli_include", cls="cli", switches=sw), _graph, _cli_switches))
 
 
+_ODD_TEMPLATES = [' FCC "a{c}b"\n', " FCC /{c}/\n", " FCC {c}ab{c}\n", ' FCC "ab" ; {c}\n', " FCB '{c}\n", " LDA #'{c}\n",
+                  "L{c} NOP \n", " LDA #1 ; {c}\n", " NAM {c}\n", " FCB 1,{c}\n", " LDA {c},X\n", " {c}\n", "{c}\n",
+                  " INCLUDE {c}.asm\n", "E{c} EQU 5\n", " LDA #$1{c}\n", " ORG {c}\n", " RMB {c}\n", " FDB \"{c}\"\n"]
+
+
+def odd_character_cases():
+    """every template x every character outside printable ASCII, alone and inside a valid program, API and CLI"""
+    for tpl in _ODD_TEMPLATES:
+        for ch in _ODD_CHARS:
+            line = tpl.format(c=ch)
+            yield dict(kind="lines", cls="odd_chars", lines=[line])
+            yield dict(kind="lines", cls="odd_chars", lines=[" ORG $1000\n", "L0 NOP \n", line, " BRA L0\n"])
+            if ch not in ("\x01",):
+                yield dict(kind="cli", cls="cli", lines=[" ORG $1000\n", "L0 NOP \n", line, " RTS \n"],
+                           switches=["--to_bin", "o.bin", "--to_cas", "o.cas"])
+
+
 def enumerated(tier, seed):
+    yield from odd_character_cases()
     for case in include_catalogue():
         yield case
         yield dict(case, kind="cli_include", cls="cli", switches=["--to_bin", "o.bin", "--to_cas", "o.cas", "--to_dsk", "o.dsk"])
@@ -238,7 +261,7 @@ def _judge_api(out, labels):
 def execute(case):
     kind = case["kind"]
     labels = ["class:" + case["cls"]]
-    special = case["cls"] in ("pcr_sweep", "include", "cli")
+    special = case["cls"] in ("pcr_sweep", "include", "cli", "odd_chars")
     if kind == "lines":
         out = driver.assemble(case["lines"])
         bad = _judge_api(out, labels)
